@@ -21,7 +21,7 @@
    dual rationals against the model's DS instance, and in double). *)
 From Coq Require Import Reals ZArith List Lra.
 From Coquelicot Require Import Coquelicot.
-From Manif Require Import Scalar RInst Dual DualProofs ParamBase ParamDual Mat Consts Group SO2 SE2 Run ParamRun ParamSE2 ParamChain.
+From Manif Require Import Scalar RInst Dual DualProofs ParamBase ParamDual Mat Consts Group SO2 SE2 Run ParamRun ParamSE2 ParamChain SO3 SE3 Jr_SO3 Jr_SE3 ParamSO3.
 Import ListNotations.
 Local Open Scope R_scope.
 
@@ -98,6 +98,20 @@ Theorem C12_chain_SE2_act eps tx ty c s px py dtx dty dc ds dpx dpy j : (j < 2)%
   is_derive (fun h => entry 0 (@run_op RS eps GSE2 OAct [] 0%Z (at_h h [[tx; ty; c; s]; [px; py]] [[dtx; dty; dc; ds]; [dpx; dpy]])) 0 j) 0
     (snd (entry (0, 0) (@run_op (DS RS) (eps, 0) GSE2 OAct [] 0%Z (seed [[tx; ty; c; s]; [px; py]] [[dtx; dty; dc; ds]; [dpx; dpy]])) 0 j)).
 Proof. exact (chain_SE2_act eps tx ty c s px py dtx dty dc ds dpx dpy j). Qed.
+Theorem C12_chain_SO3_exp eps x y z dx dy dz j : 0 < eps -> x * x + y * y + z * z <> eps -> (j < 4)%nat ->
+  is_derive (fun h => entry 0 (@run_op RS eps GSO3 OExp [] 0%Z (at_h h [[x; y; z]] [[dx; dy; dz]])) 0 j) 0
+    (snd (entry (0, 0) (@run_op (DS RS) (eps, 0) GSO3 OExp [] 0%Z (seed [[x; y; z]] [[dx; dy; dz]])) 0 j)).
+Proof. exact (chain_SO3_exp eps x y z dx dy dz j). Qed.
+Theorem C12_chain_SE3_exp eps a b c x y z da db dc dx dy dz j : 0 < eps -> x * x + y * y + z * z <> eps -> (j < 7)%nat ->
+  is_derive (fun h => entry 0 (@run_op RS eps GSE3 OExp [] 0%Z (at_h h [[a; b; c; x; y; z]] [[da; db; dc; dx; dy; dz]])) 0 j) 0
+    (snd (entry (0, 0) (@run_op (DS RS) (eps, 0) GSE3 OExp [] 0%Z (seed [[a; b; c; x; y; z]] [[da; db; dc; dx; dy; dz]])) 0 j)).
+Proof. exact (chain_SE3_exp eps a b c x y z da db dc dx dy dz j). Qed.
+(* "the dual parts reproduce the analytic Jacobian" as a theorem: the translation of SE3's exp (C12 chain + C05) *)
+Theorem C12_SE3_exp_dual_is_analytic_jacobian eps a b c x y z da db dc dx dy dz i : 0 < eps -> eps < x * x + y * y + z * z -> (i < 3)%nat ->
+  snd (entry (0, 0) (@run_op (DS RS) (eps, 0) GSE3 OExp [] 0%Z (seed [[a; b; c; x; y; z]] [[da; db; dc; dx; dy; dz]])) 0 i) =
+  nth i (@mvmul RS (so3_rotation RS (so3_exp RS eps [x; y; z])) (rjac_lin eps a b c x y z da db dc dx dy dz)) 0.
+Proof. exact (se3_exp_dual_is_analytic eps a b c x y z da db dc dx dy dz i). Qed.
+Print Assumptions C12_SE3_exp_dual_is_analytic_jacobian.
 Print Assumptions C12_every_operation_dual_is_derivative.
 Print Assumptions C12_SE2_exp_dual_is_derivative.
 (* what the relation says about one entry *)
